@@ -26,10 +26,12 @@ class Ob:
     """An obligation.  kind 'eq': cnl kernel must be equivalent to one of refs.
     kind 'ir': just compile `cnl` and hand the IR function to `judge`."""
     def __init__(self, key, ret, params, cnl, refs=(), pre=(), cfg="clang", mode="eq", decls="",
-                 may_reject=False, meta=None, kind="eq", alt_cnl=()):
+                 may_reject=False, meta=None, kind="eq", alts=()):
         self.key, self.ret, self.params, self.cnl, self.refs = key, ret, list(params), cnl, list(refs)
         self.pre, self.cfg, self.mode, self.decls = list(pre), cfg, mode, decls
         self.may_reject, self.meta, self.kind = may_reject, meta or {}, kind
+        self.alts = list(alts)   # [(finding_key, body)]: recorded defective behaviours; a match never proves, it only names the finding
+        self.matched_alt = None
         # results
         self.status = None   # 'proved' | 'refuted' | 'rejected' | 'broken'
         self.detail = ""
@@ -53,6 +55,8 @@ def _tu_source(cfg, obs):
         ks = [("cnl", Kernel("k%d_cnl" % i, ob.ret, ob.params, ob.cnl, ob.pre))]
         for j, r in enumerate(ob.refs):
             ks.append(("ref%d" % j, Kernel("k%d_ref%d" % (i, j), ob.ret, ob.params, r, ob.pre)))
+        for j, (fk, r) in enumerate(ob.alts):
+            ks.append(("alt%d" % j, Kernel("k%d_alt%d" % (i, j), ob.ret, ob.params, r, ob.pre)))
         for which, k in ks:
             start = len(lines) + 1
             lines += k.source().split("\n")
@@ -200,6 +204,20 @@ def run_obligations(work, obs, batch=24, second_chance=True, log=None):
         for li, ob in pend:
             ob.status = "refuted"
             ob.detail = "no reference normal form equals the CNL kernel's"
+            for j, (fk, body) in enumerate(ob.alts):
+                try:
+                    fa = mod.functions["k%d_alt%d" % (li, j)]
+                    same = ir.normal_form(mod, fa) == ob.nf_cnl
+                    if not same:
+                        ga, gc = gate.gated(mod, fa), gate.gated(mod, mod.functions["k%d_cnl" % li])
+                        same = ga == gc or gate.expand(ga) == gate.expand(gc)
+                except Exception:
+                    same = False
+                if same:
+                    ob.matched_alt = fk
+                    ob.meta["finding_key"] = fk
+                    ob.detail = "the CNL kernel equals the recorded defective behaviour `%s`" % body
+                    break
 
     tc.pmap(do, jobs)
     return obs
